@@ -800,6 +800,38 @@ func (c *Ctx) classifyAtom0(d *declInfo, li *loopInfo, ifs *ast.IfStmt, a ast.Ex
 			}
 		}
 		// x != y between variables
+		// an edge target compared with the edge's own source: the self-edge test
+		if be.Op == token.EQL || be.Op == token.NEQ {
+			isFrom := func(e ast.Expr) bool {
+				f := selectorField(d.pkg, chase(d.pkg, defs, e))
+				return f != nil && f.Name() == "From"
+			}
+			isElem := func(e ast.Expr) bool {
+				if rs, isRange := li.stmt.(*ast.RangeStmt); isRange && rs.Value != nil {
+					return objOf(d.pkg, e) != nil && objOf(d.pkg, e) == objOf(d.pkg, rs.Value)
+				}
+				return false
+			}
+			if (isFrom(x) && isElem(y)) || (isFrom(y) && isElem(x)) {
+				return "self-edge", text
+			}
+			// the same test on the components: dict[target] == parent (pointer identity)
+			isEntryOfElem := func(e ast.Expr) bool {
+				ix, ok := chase(d.pkg, defs, e).(*ast.IndexExpr)
+				return ok && isElem(ix.Index)
+			}
+			samePtr := func(a, b ast.Expr) bool {
+				ta, tb := info.TypeOf(a), info.TypeOf(b)
+				if ta == nil || tb == nil || !types.Identical(ta, tb) {
+					return false
+				}
+				_, isPtr := ta.Underlying().(*types.Pointer)
+				return isPtr
+			}
+			if samePtr(x, y) && (isEntryOfElem(x) || isEntryOfElem(y)) {
+				return "self-edge", text
+			}
+		}
 		return "comparison", text
 	}
 	if ce, ok := a.(*ast.CallExpr); ok {
